@@ -34,13 +34,11 @@ HARNESS_FEATURES = ""
 
 # toggle sets tried for attribution, most specific first
 TOGGLE_SETS = [
-    ["f2"],
-    ["f2", "f3"],
-    ["f2", "f16"],
-    ["f2", "f3", "f16", "f31"],                  # = fixes/C06-combined-F2-F3-F16-F31.diff
-    ["f2", "f3", "f16", "f31", "f32"],
-    ["f2", "f3", "f14", "f16", "f31", "f32"],
-    ["f1", "f2", "f3", "f14", "f16", "f31", "f32"],   # + the C01 findings F1/F14 (firewalls), which cyclic programs hit too
+    ["f3"],
+    ["f3", "f31"],                               # = fixes/F3-… + fixes/F31-… on top of the committed fixes of F2, F16
+    ["f3", "f31", "f32"],
+    ["f3", "f14", "f31", "f32"],
+    ["f1", "f3", "f14", "f31", "f32"],           # + the C01 findings F1/F14 (firewalls), which cyclic programs hit too
 ]
 
 PARTIAL = [
@@ -50,10 +48,11 @@ PARTIAL = [
     "is not proved; it is left to the harness oracle (root order of each case) and to harness/src/bin/cycprobe.rs "
     "(200 000 random cyclic programs, 0 order-dependent).",
     "cycle_incremental (values after edits that create/remove cycles equal the from-scratch values) is FALSE for the "
-    "code as it is: findings F2, F3, F16, F30, F31, F32 (canonical replays in corpus/engine-cyclic, witnesses "
-    "checked against the real engine on every run). Not proved for a repaired configuration: the toggled model "
-    "{f2,f3,f16,f31} meets the oracle on all generated programs without firewalls/projections, and with them only "
-    "up to the residual recorded as F32/F30/F1/F14.",
+    "code as it is: findings F3, F30, F31, F32 (canonical replays in corpus/engine-cyclic, witnesses checked "
+    "against the real engine on every run); F2 and F16 were fixed in /repo (531aeb1, 3fbfd09) and their replays now "
+    "run clean. Not proved for a repaired configuration: the toggled model {f3,f31} meets the oracle on all "
+    "generated programs without firewalls/projections, and with them only up to the residual recorded as "
+    "F32/F30/F1/F14.",
     "concurrent requests (two tasks entering one SCC from two sides) are outside these sequential models (C02's LTS).",
 ]
 ASSUMPTIONS = [
